@@ -106,7 +106,7 @@ theorem C33_instance (X : (String → Nat → Option DErr) → ExFn) (o : Opts)
 
 /-- `UNWIND [1, 2, 3] AS x RETURN DISTINCT x` -/
 def qDistinct3 : Plan DE DRow DErr DAgg :=
-  .distinct (.project [("x", .var "x")] (.unwind (.lit (.list [.int 1, .int 2, .int 3])) "x" (.source [.ok []])))
+  .distinct (.project [("x", .var "x")] (.unwind (.lit (.list [.int 1, .int 2, .int 3])) "x" (.scan [[]])))
 
 def never : Site → Nat → Bool := fun _ _ => false
 
@@ -122,7 +122,7 @@ def rowX (i : Int) : DRow := [("x", dint i)]
 
 /-- non-vacuity: without DISTINCT the limited runs fail with the limit error, on both trees -/
 example : execute dsem Quirks.pinned coll2 []
-    (.project [("x", .var "x")] (.unwind (.lit (.list [.int 1, .int 2, .int 3])) "x" (.source [.ok []])))
+    (.project [("x", .var "x")] (.unwind (.lit (.list [.int 1, .int 2, .int 3])) "x" (.scan [[]])))
     = .error (.limit .coll) := by decide
 
 /-- pinned tree: the `Unwind.list` check fails (3 > 2), DISTINCT drops the limit error and the
@@ -178,7 +178,7 @@ def existsRange : (String → Nat → Option DErr) → ExFn := fun coll _ _ row 
 /-- `UNWIND [3, 5, 50] AS n UNWIND CASE WHEN EXISTS { … range(1, n) … } THEN [n] ELSE [] END AS y` -/
 def qParkLast : Plan DE DRow DErr DAgg :=
   .unwind (.caseWhen (.existsSub 0) (.single (.var "n")) (.lit (.list []))) "y"
-    (.unwind (.lit (.list [.int 3, .int 5, .int 50])) "n" (.source [.ok []]))
+    (.unwind (.lit (.list [.int 3, .int 5, .int 50])) "n" (.scan [[]]))
 
 /-- `max_collection_items = 10` -/
 def coll10 : LimEnv DErr := LimEnv.ofOpts DErr.limit ⟨10 ^ 9, 10, 0, 10 ^ 9⟩ never never
